@@ -983,6 +983,25 @@ def result_layers_checked(brs, layers):
     return all(l in have for l in layers)
 
 
+def enum_const_tests(fn, adt_substr):
+    """comparisons of an enum value with a constant variant, spelled `x == V`, `x != V` (derived PartialEq) -- list of
+    dict(call, variant, eq_edge (value is V), ne_edge (value is not V))"""
+    out = []
+    for c in fn.calls():
+        m = re.search(r"PartialEq(?:>)?::(eq|ne)$", c.callee or "")
+        if not m or adt_substr not in (c.self_ty or ""):
+            continue
+        variants = [v for a in c.args[:2] for v in fn.value_consts(a)]
+        variants = [v.split("::")[-1] for v in variants if v]
+        if len(variants) != 1:
+            continue
+        te, fe = true_edge(fn, c), false_edge(fn, c)
+        if m.group(1) == "ne":
+            te, fe = fe, te
+        out.append({"call": c, "variant": variants[0], "eq_edge": te, "ne_edge": fe})
+    return out
+
+
 def creation_sites(db, body):
     """sites (fn, Site, stmt) where the closure/coroutine `body` is created"""
     out = []
